@@ -5,7 +5,8 @@ import SqlObjVerif.Model.DrvUtil
     `e <dialect,dialect,…> <tree in prefix notation>` answers
     `<rendered tokens per dialect, joined by ' ; '> | <three-valued value of the source tree per row: T F N> | <rows selected by the
     parsed rendering, under three precedence tables: 1/0 per row> | <parse = toT under the three tables>`.
-    Tree syntax: NumE `c<i>` | `k<int>` | `f<n>` / `F<n>` (float literal number n, positive / negative; the value fields are
+    Answer `rejected` when the constructors refuse the tree (`coerce = none`).
+    Tree syntax: NumE `c<i>` (IntCol) | `r<i>` (FloatCol) | `w<n>:<k>` / `W<n>:<k>` (float literal n = ± the whole number k) | `k<int>` | `f<n>` / `F<n>` (float literal number n, positive / negative; the value fields are
     meaningless for trees with float literals or float columns: the driver evaluates in `intDom`) | `ar <op> l r` | `neg x` | `pos x` | `b2i <BoolE>`;
     BoolE `cmp <op> l r` | `and& l r` | `or| l r` | `AND n e…` | `OR n e…` | `not~ x` | `NOT x` |
     `in x n item…` | `notin x n item…` (item `N` = None) | `isnull x` | `isnotnull x` | `eqnone x` | `nenone x`. -/
@@ -33,6 +34,11 @@ partial def pNum : Parser NumE
   | "b2i" :: ts => do let (b, ts) ← pBool ts; pure (.b2i b, ts)
   | t :: ts =>
     if t.startsWith "c" then (t.drop 1).toNat?.map fun n => (.col n, ts)
+    else if t.startsWith "r" then (t.drop 1).toNat?.map fun n => (.rcol n, ts)
+    else if t.startsWith "w" || t.startsWith "W" then
+      match (t.drop 1).toString.splitOn ":" with
+      | [i, n] => do let i ← i.toNat?; let n ← n.toNat?; pure (.wconst (t.startsWith "W") i n, ts)
+      | _ => none
     else if t.startsWith "k" then (t.drop 1).toInt?.map fun i => (.const i, ts)
     else if t.startsWith "f" then (t.drop 1).toNat?.map fun i => (.fconst false i, ts)
     else if t.startsWith "F" then (t.drop 1).toNat?.map fun i => (.fconst true i, ts)
@@ -140,7 +146,10 @@ def handle (rows : List (Row intDom)) (line : String) : List (Row intDom) × Str
     ((parsed.filterMap id).map mkRow, "ok")
   | "e" :: ds :: ts =>
     match pBool ts with
-    | some (e, []) =>
+    | some (e0, []) =>
+      match coerce e0 with
+      | none => (rows, "rejected")
+      | some e =>
       let dialects := ds.splitOn ","
       let n := buildB e
       let texts := dialects.map fun d => " ".intercalate ((render d false n).map Tok.spell)
